@@ -13,6 +13,9 @@ distinct members drawn without replacement, with one of the two canonical
 crossover loops; replacement only by strictly lower energy (C01.c).
 Round 3: Powell's three line searches receive the same (xtol*100, imax)
 settings.
+Round 4: the wrappers build their stop rule from the caller's tolerances in the
+reference's roles; a DE member is replaced only behind a TRUE `trial <
+incumbent` test (NaN-safe).
 NOT decided: numerical agreement with scipy (rounding, counts), brent.
 """
 import ast
